@@ -34,21 +34,21 @@ pub fn budget(prop: &str, tier: Tier) -> u64 {
     let q = match prop {
         "C01" => 80_000,
         "C02" => 40_000,
-        "C03" => 100_000,
-        "C04" => 150_000,
+        "C03" => 150_000,
+        "C04" => 300_000,
         "C05" => 12_000,
         "C06" => 20_000,
-        "C07" => 5_000,
-        "C08" => 15_000,
-        "C09" => 900,
-        "C10" => 120_000,
-        "C11" => 60_000,
-        "C12" => 15_000,
+        "C07" => 7_000,
+        "C08" => 25_000,
+        "C09" => 2_400,
+        "C10" => 300_000,
+        "C11" => 100_000,
+        "C12" => 25_000,
         "C13" => c13_cases().len() as u64,
-        "C14" => 120_000,
-        "C15" => 100_000,
-        "C16" => 2_500,
-        "C17" => 100_000,
+        "C14" => 250_000,
+        "C15" => 300_000,
+        "C16" => 4_000,
+        "C17" => 150_000,
         "C18" => 25_000,
         _ => 1000,
     };
